@@ -26,6 +26,7 @@ import instr
 import sched
 from instr import diskcache
 from props import c15 as base
+from props.c15 import add_dis
 
 ID = 'C20'
 COQ_PROP = 'C20'
@@ -254,7 +255,7 @@ def avg_run(ctx, res, cases, hist, correspond=True):
             steps = avg_steps(out, n)
             checks.append(avg_check(case, out, steps))
         except base.Shape as e:
-            res.disagreements.append(fw.Violation('event-shape', 'scheduler log does not have the modelled shape: %s' % e, case, 'correspondence'))
+            add_dis(res, fw.Violation('event-shape', 'scheduler log does not have the modelled shape: %s' % e, case, 'correspondence'))
             continue
         b = len(steps)
         hist['avg_atomic_steps'][b] = hist['avg_atomic_steps'].get(b, 0) + 1
@@ -445,7 +446,7 @@ def thr_run(ctx, res, cases, hist, correspond=True):
                 checks.append(thr_check(case, out))
                 info.append((case, out))
             except base.Shape as e:
-                res.disagreements.append(fw.Violation('event-shape', str(e), case, 'correspondence'))
+                add_dis(res, fw.Violation('event-shape', str(e), case, 'correspondence'))
     if correspond and checks:
         bad, errors = fw.coq_mismatches('c20t', IMPORTS, 'From Coq Require Import QArith.\nOpen Scope Z_scope.\n', checks, chunk=150)
         res.traces_validated += len(checks) - len(bad)
